@@ -1229,3 +1229,101 @@ Lemma ex_partial_bundle :
   /\ texts nat ex_render ex_show (firstn 4 ex_items) [1; 2] = Some [[1; 1]; [2; 2]; [32; 97]; [37]]
   /\ nconsumers (firstn 4 ex_items) = length [1; 2].
 Proof. repeat split. Qed.
+
+(* ------------------------------------------------------------------------------------------ *)
+(* Show of a key/value container (Table_Show, Tree_Show) *)
+
+Section MapShowProofs.
+Variable V : Type.
+Variable render : list byte -> ckind -> V -> option (list byte).
+Variable show : V -> list byte.
+Notation texts := (texts V render show).
+
+Definition COLON : list byte := [58].
+
+(* show k1, ":", show v1, ", ", show k2, ":", show v2, ... *)
+Fixpoint pair_texts (elems : list (V * V)) : list (list byte) :=
+  match elems with
+  | [] => []
+  | (key, val) :: rest =>
+    show key :: COLON :: show val :: match rest with [] => [] | _ => SEP :: pair_texts rest end
+  end.
+
+Lemma pair_texts_join : forall elems,
+  concat (pair_texts elems) = join SEP (map (fun kv => show (fst kv) ++ COLON ++ show (snd kv)) elems).
+Proof.
+  induction elems as [|[key val] rest IH]; [reflexivity|].
+  cbn [pair_texts map join concat fst snd]. destruct rest as [|e2 rest'].
+  - cbn [concat map]. rewrite app_nil_r. reflexivity.
+  - cbn [map]. cbn [map] in IH. rewrite <- IH. cbn [concat]. rewrite <- ?app_assoc. reflexivity.
+Qed.
+
+Definition kv_items : list item := [ShowDollar; Lit COLON; ShowDollar].
+
+Lemma kv_wf : wf_items kv_items = true /\ unparse kv_items = KV.
+Proof. split; reflexivity. Qed.
+
+Lemma show_pairs_spec : forall elems st,
+  exists st', show_pairs V render show (ODone st) elems = ODone st'
+    /\ p_sink st' = write_all (p_sink st) (p_pos st) (pair_texts elems)
+    /\ p_pos st' = p_pos st + length (concat (pair_texts elems)).
+Proof.
+  induction elems as [|[key val] rest IH]; intros st.
+  - exists st. cbn [show_pairs pair_texts write_all concat length]. repeat split. lia.
+  - cbn [show_pairs then_print].
+    destruct (print_from_done V render show kv_items [key; val] (mkP (p_sink st) (p_pos st) 0 (p_calls st))
+                [show key; COLON; show val] (proj1 kv_wf) eq_refl eq_refl) as [st1 [E1 [A1 B1]]].
+    rewrite (proj2 kv_wf) in E1. rewrite E1.
+    cbn [p_sink p_pos concat] in A1, B1. rewrite app_nil_r in B1.
+    destruct rest as [|e2 rest'].
+    + cbn [show_pairs pair_texts]. exists st1. cbn [concat]. rewrite app_nil_r.
+      repeat split; assumption.
+    + cbn [then_print].
+      destruct (print_from_done V render show [Lit SEP] [] (mkP (p_sink st1) (p_pos st1) 0 (p_calls st1)) [SEP] sep_wf eq_refl eq_refl)
+        as [st2 [E2 [A2 B2]]].
+      change (unparse [Lit SEP]) with SEP in E2. rewrite E2.
+      cbn [p_sink p_pos concat] in A2, B2. rewrite app_nil_r in B2.
+      destruct (IH st2) as [st3 [E3 [A3 B3]]].
+      exists st3. split; [exact E3|].
+      set (tl := pair_texts (e2 :: rest')) in *.
+      change (pair_texts ((key, val) :: e2 :: rest')) with (show key :: COLON :: show val :: SEP :: tl).
+      rewrite A3, B3, A2, B2, A1, B1. cbn [write_all concat].
+      rewrite !app_length. split; [|lia].
+      rewrite !Nat.add_assoc. reflexivity.
+Qed.
+
+Theorem show_map_spec : forall oi ci self elems k pos tops tcl,
+  wf_items oi = true -> wf_items ci = true ->
+  texts oi [self] = Some tops -> texts ci [] = Some tcl ->
+  exists st, show_map V render show (unparse oi) (unparse ci) self elems k pos = ODone st
+    /\ p_sink st = write_all k pos (tops ++ pair_texts elems ++ tcl)
+    /\ p_pos st = pos + length (concat tops
+                                ++ join SEP (map (fun kv => show (fst kv) ++ COLON ++ show (snd kv)) elems)
+                                ++ concat tcl).
+Proof.
+  intros oi ci self elems k pos tops tcl Ho Hc Hto Htc. unfold show_map.
+  destruct (print_to_done V render show oi [self] k pos tops Ho Hto) as [st0 [E0 [A0 [B0 _]]]].
+  rewrite E0.
+  destruct (show_pairs_spec elems st0) as [st1 [E1 [A1 B1]]]. rewrite E1.
+  cbn [then_print].
+  destruct (print_from_done V render show ci [] (mkP (p_sink st1) (p_pos st1) 0 (p_calls st1)) tcl Hc eq_refl Htc) as [st2 [E2 [A2 B2]]].
+  rewrite E2. exists st2. split; [reflexivity|].
+  cbn [p_sink p_pos] in A2, B2.
+  rewrite !write_all_app. rewrite A2, B2, A1, B1, A0, B0.
+  rewrite <- pair_texts_join. rewrite !app_length.
+  split; [reflexivity|lia].
+Qed.
+
+End MapShowProofs.
+
+(* Table_Show's opener "<'Table' At 0x%p {" and closer "}>" *)
+Definition table_open : list item :=
+  [Lit [60; 39; 84; 97; 98; 108; 101; 39; 32; 65; 116; 32; 48; 120]; Conv [] [] [] [] 112; Lit [32; 123]].
+Definition table_close : list item := [Lit [125; 62]].
+
+Lemma ex_table_bundle :
+  wf_items table_open = true /\ wf_items table_close = true
+  /\ texts nat ex_render ex_show table_open [9] <> None /\ texts nat ex_render ex_show table_close [] <> None
+  /\ exists st, show_map nat ex_render ex_show (unparse table_open) (unparse table_close) 9 [(1, 2); (3, 4)] (SFile []) 0 = ODone st
+       /\ p_sink st = SFile ([60; 39; 84; 97; 98; 108; 101; 39; 32; 65; 116; 32; 48; 120; 9; 9; 32; 123] ++ [1; 58; 2; 44; 32; 3; 58; 4] ++ [125; 62]).
+Proof. repeat split; try discriminate. eexists. split; vm_compute; reflexivity. Qed.
